@@ -56,6 +56,19 @@ def range_number_from_counter(e, label, counter):
     return number
 
 
+def range_numbers_at_note(ranges, label, counter):
+    """
+    Number the ranges (slurs, tuplets) that stop, or that start, at one note.
+    Ranges that are open already are looked up before new ones are numbered,
+    and the result is sorted by number, so that the elements written do not
+    depend on the order of the list, which an importer cannot recover.
+    """
+    known = [r for r in ranges if (label, r) in counter]
+    new = [r for r in ranges if (label, r) not in counter]
+    numbered = [(range_number_from_counter(r, label, counter), r) for r in known + new]
+    return sorted(numbered, key=itemgetter(0))
+
+
 def filter_string(s):
     """
     Make (unicode) string fit for passing it to lxml, which means (at least)
@@ -192,28 +205,22 @@ def make_note_el(note, dur, voice, counter, n_of_staves):
         if note.staff != 1 or n_of_staves > 1:
             etree.SubElement(note_e, "staff").text = "{}".format(note.staff)
 
-    for slur in note.slur_stops:
-        number = range_number_from_counter(slur, "slur", counter)
-
+    for number, slur in range_numbers_at_note(note.slur_stops, "slur", counter):
         notations.append(etree.Element("slur", number="{}".format(number), type="stop"))
 
-    for slur in note.slur_starts:
-        number = range_number_from_counter(slur, "slur", counter)
-
+    for number, slur in range_numbers_at_note(note.slur_starts, "slur", counter):
         notations.append(
             etree.Element("slur", number="{}".format(number), type="start")
         )
 
-    for tuplet in note.tuplet_stops:
-        number = range_number_from_counter(tuplet, "tuplet", counter)
-
+    for number, tuplet in range_numbers_at_note(note.tuplet_stops, "tuplet", counter):
         notations.append(
             etree.Element("tuplet", number="{}".format(number), type="stop")
         )
 
-    for tuplet in note.tuplet_starts:
-        number = range_number_from_counter(tuplet, "tuplet", counter)
-
+    for number, tuplet in range_numbers_at_note(
+        note.tuplet_starts, "tuplet", counter
+    ):
         tuplet_e = etree.Element("tuplet", number="{}".format(number), type="start")
         if (
             tuplet.actual_notes is not None
